@@ -29,7 +29,7 @@ Verdicts == l >= 1 => \A mon \in Monitors :
                 Monitor(MonOK(Trace[l], mon), [l |-> l, id |-> Trace[l].id, monitor |-> mon])
 
 \* conformance with the spec's expectation (never a verdict)
-Conforms(r) == r.obs.panicked \/ (r.mut.exp = "err" => r.obs.err) /\ (r.mut.exp = "ok" => ~r.obs.err)
+Conforms(r) == r.obs.panicked \/ ((r.mut.exp = "err" => r.obs.err) /\ (r.mut.exp = "ok" => ~r.obs.err))
 Drift    == l >= 1 => (Conforms(Trace[l]) \/ Emit("DRIFT", [l |-> l, id |-> Trace[l].id]))
 Accepted == TLCGet("stats").diameter - 1 = Len(Trace)
 =============================================================================
